@@ -281,7 +281,8 @@ impl Iterator for RenkoOutput {
 
 	#[inline]
 	fn nth(&mut self, n: usize) -> Option<Self::Item> {
-		self.pos += n;
+		// skipping past the end exhausts the iterator instead of moving beyond `len`
+		self.pos = self.pos.saturating_add(n).min(self.len);
 		self.next()
 	}
 
